@@ -1,0 +1,95 @@
+//go:build verif
+
+// Contracts for rpc/idgen.go (C06: "a question id is not reused before its Finish is sent"): the id
+// generator against its abstract view - the set of free ids below the high-water mark.
+package rpc
+
+//@ spec
+//@ func atOldWord(f func() uint64) uint64 { panic("spec") }
+//@ // abstract view of a uintSet: membership of i
+//@ func inSet(s uintSet, i uint) bool { return i/64 < uint(len(s)) && s[int(i/64)]&(uint64(1)<<(i%64)) != 0 }
+//@ end
+
+//@ func uintSet.has -> r
+//@   props C06 C07
+//@   ensures r == inSet(s, i)
+
+// remove clears exactly bit i: every other word, and every other bit of its word, is unchanged
+//@ func uintSet.remove
+//@   props C06 C07
+//@   modifies e:uint64
+//@   ensures !inSet(s, i)
+//@   ensures others: forall(0, len(s), func(w int) bool { return implies(uint(w) != i/64, s[w] == atOldWord(func() uint64 { return s[w] })) })
+//@   ensures sameword: implies(i/64 < uint(len(s)), s[int(i/64)] == atOldWord(func() uint64 { return s[int(i/64)] })&^(uint64(1)<<(i%64)))
+
+// min is the least member: it is a member, every lower word is empty and no lower bit of its
+// word is set; when there is none, every word is empty
+//@ func uintSet.min -> m, ok
+//@   props C06 C07
+//@   modifies nothing
+//@   ensures found: implies(ok, inSet(s, m))
+//@   ensures least: implies(ok, forall(0, len(s), func(w int) bool { return implies(uint(w) < m/64, s[w] == 0) }) &&
+//@     s[int(m/64)]&((uint64(1)<<(m%64))-1) == 0)
+//@   ensures empty: implies(!ok, m == 0 && forall(0, len(s), func(w int) bool { return s[w] == 0 }))
+//@   loop 0 "range s"
+//@     invariant 0 <= rangeidx && rangeidx <= len(s)
+//@     invariant forall(0, rangeidx, func(w int) bool { return s[w] == 0 })
+//@   loop 1 "j < 64"
+//@     invariant j <= 64 && x != 0 && x&((uint64(1)<<j)-1) == 0
+
+// add sets exactly bit i, growing the set with zero words as needed: every other word and every
+// other bit of its word keep their value (words beyond the old length count as zero)
+//@ func uintSet.add
+//@   props C06 C07
+//@   requires i < 1<<40
+//@   -- the only uintSet the package keeps is idgen.free: that field and word arrays are all add writes
+//@   modifies idgen.free e:uint64
+//@   old n0 int = len(*s)
+//@   ensures inSet(*s, i) && len(*s) >= n0 && uint(len(*s)) > i/64
+//@   ensures others: forall(0, len(*s), func(w int) bool {
+//@     return implies(uint(w) != i/64, implies(w < n0, (*s)[w] == atOldWord(func() uint64 { return (*s)[w] })) && implies(w >= n0, (*s)[w] == 0)) })
+//@   ensures sameword: implies(i/64 < uint(n0), (*s)[int(i/64)] == atOldWord(func() uint64 { return (*s)[int(i/64)] })|(uint64(1)<<(i%64))) &&
+//@     implies(i/64 >= uint(n0), (*s)[int(i/64)] == uint64(1)<<(i%64))
+
+//@ spec
+//@ // bits of word w that denote ids below the high-water mark hw
+//@ func below(hw uint32, w int) uint64 {
+//@ 	if M(w)*64+64 <= M(hw) {
+//@ 		return ^uint64(0)
+//@ 	}
+//@ 	if M(w)*64 >= M(hw) {
+//@ 		return 0
+//@ 	}
+//@ 	return (uint64(1) << (uint(hw) - uint(w)*64)) - 1
+//@ }
+//@ // representation invariant of idgen: only ids that were issued (below the high-water mark) are free
+//@ func genOK(gen *idgen) bool {
+//@ 	return gen != nil && forall(0, len(gen.free), func(w int) bool { return gen.free[w]&^below(gen.i, w) == 0 })
+//@ }
+//@ end
+
+// next hands out an id that is not in use: either a free one (which stops being free, nothing else
+// changes) or the high-water mark itself (which advances by one, the free set unchanged).
+//@ func idgen.next -> id
+//@   props C06 C07
+//@   requires genOK(gen) && gen.i < 1<<32-1
+//@   old i0 uint32 = gen.i
+//@   old n0 int = len(gen.free)
+//@   ensures genOK(gen)
+//@   ensures notinuse: id == i0 || (id < i0 && atOldIn(func() bool { return inSet(gen.free, uint(id)) }))
+//@   ensures nowinuse: id < gen.i && !inSet(gen.free, uint(id))
+//@   ensures mark: (id == i0 && gen.i == i0+1) || (id < i0 && gen.i == i0)
+//@   ensures others: len(gen.free) == n0 && forall(0, n0, func(w int) bool {
+//@     return implies(uint(w) != uint(id)/64 || id == i0, gen.free[w] == atOldWord(func() uint64 { return gen.free[w] })) })
+
+//@ spec
+//@ func atOldIn(f func() bool) bool { panic("spec") }
+//@ end
+
+// remove gives an issued id back: it becomes free, nothing else changes
+//@ func idgen.remove
+//@   props C06 C07
+//@   requires genOK(gen) && i < gen.i
+//@   old i0 uint32 = gen.i
+//@   ensures genOK(gen) && gen.i == i0
+//@   ensures inSet(gen.free, uint(i))
